@@ -16,18 +16,22 @@ try:
     r = run(["git", "-C", "/repo", "worktree", "add", "--detach", wt, "HEAD", "-q"]); assert r.returncode == 0, r.stderr
     res["repo_head"] = run(["git", "-C", "/repo", "rev-parse", "--short", "HEAD"]).stdout.strip()
     shutil.copy("/repo/spec_classes/_version.py", os.path.join(wt, "spec_classes", "_version.py"))  # gitignored, build-generated
-    shutil.copy(os.path.join(src, "demo.py"), os.path.join(wt, "_demo.py"))
-    r0 = run(["/venv/bin/python", "_demo.py"], cwd=wt, timeout=600)
+    # demos may assert that spec_classes is imported from their author's worktree (<root>/out/s<i>/demo.py): point that at ours
+    author_root = os.path.dirname(os.path.dirname(os.path.abspath(src)))
+    os.makedirs(os.path.join(wt, "out", "s1"))  # the layout the authors ran their demo in: <root>/out/s<i>/demo.py, cwd = <root>
+    DEMO = os.path.join("out", "s1", "demo.py")
+    open(os.path.join(wt, DEMO), "w").write(open(os.path.join(src, "demo.py")).read().replace(author_root, wt))
+    r0 = run(["/venv/bin/python", DEMO], cwd=wt, timeout=600)
     res["demo_without_patch_rc"] = r0.returncode
     r = run(["git", "apply", "--whitespace=nowarn", os.path.join(src, "patch.diff")], cwd=wt)
     if r.returncode != 0:
         r = run(["git", "apply", "-3", "--whitespace=nowarn", os.path.join(src, "patch.diff")], cwd=wt)
     res["patch_applies"] = r.returncode == 0
     if r.returncode == 0:
-        t = run(["/venv/bin/python", "-m", "pytest", "-q", "-p", "no:cacheprovider", "-x", "--timeout=900", "--ignore=_demo.py"], cwd=wt, timeout=1200)
+        t = run(["/venv/bin/python", "-m", "pytest", "-q", "-p", "no:cacheprovider", "-x", "--timeout=900", "--ignore=out"], cwd=wt, timeout=1200)
         res["tests_with_patch"] = t.stdout.strip().splitlines()[-1] if t.stdout.strip() else t.stderr[-200:]
         res["tests_pass_with_patch"] = t.returncode == 0
-        r1 = run(["/venv/bin/python", "_demo.py"], cwd=wt, timeout=600)
+        r1 = run(["/venv/bin/python", DEMO], cwd=wt, timeout=600)
         res["demo_with_patch_rc"] = r1.returncode
         res["demo_with_patch_tail"] = (r1.stdout + r1.stderr)[-600:]
         # regenerate the patch against current HEAD so that it applies cleanly to /repo
